@@ -100,7 +100,8 @@ def parse_dev(t):
 
 def run_tlc(module, cfg, env, wd, timeout=900, workers=1, heap="6g", simulate=None, extra=()):
     """Run TLC on spec/<module>.tla with spec/<cfg>.  Returns dict(out, states, distinct, ok, done)."""
-    meta = os.path.join(wd, "states-" + module + "-" + str(int(time.time() * 1000) % 100000))
+    import uuid
+    meta = os.path.join(wd, "states-" + module + "-" + uuid.uuid4().hex[:12])     # unique among parallel runs
     e = dict(os.environ)
     e.update({k: str(v) for k, v in env.items()})
     e["JAVA_TOOL_OPTIONS"] = "-Xss1g -Dtlc2.tool.queue.IStateQueue=StateDeque" if workers == 1 else "-Xss512m"
@@ -126,6 +127,9 @@ def run_tlc(module, cfg, env, wd, timeout=900, workers=1, heap="6g", simulate=No
     res["error"] = None
     if "Parsing or semantic analysis failed" in out or "Could not find" in out:
         raise ToolError("TLC could not load the specification:\n" + out[-2500:])
+    if "java.io." in out or "OutOfMemoryError" in out or "No space left" in out:
+        # the tool failed (files, memory), not the specification or the trace
+        raise ToolError("TLC failed for an environmental reason:\n" + out[-1500:])
     if "Error:" in out:
         i = out.index("Error:")
         res["error"] = out[i:i + 1500]
